@@ -229,6 +229,8 @@ def main():
     ap.add_argument("--fns", default="", help="extra function names (comma separated) added to every property's targets")
     ap.add_argument("--whole-file", action="store_true", help="mutate every function body of the anchor files, not only the anchored functions")
     ap.add_argument("--union", action="store_true", help="run every check anchored at the mutant's file; a mutant survives only if none reports it")
+    ap.add_argument("--add-file", default="", help="extra files (relative to include/quill, comma separated) that are not anchors of any property but that the "
+                    "properties given with --ids rest on; mutated as if anchored, and in --union mode checked by all of --ids")
     a = ap.parse_args()
     props = [json.loads(l) for l in open(os.path.join(VERIF, "properties.jsonl"))]
     ids = a.ids.split(",")
@@ -236,6 +238,7 @@ def main():
     todo = []
     for pid in ids:
         names, files = tg[pid]
+        files = files + [os.path.join(INC, x) for x in a.add_file.split(",") if x and os.path.join(INC, x) not in files]
         names = sorted(set(names) | set(x for x in a.fns.split(",") if x))
         ms = [m for m in gen(pid, names, files, whole=a.whole_file) if a.file in m["file"]]
         if a.kinds:
@@ -254,6 +257,11 @@ def main():
         for d in props:
             for f in d["anchors"]["files"]:
                 fmap.setdefault(os.path.relpath(os.path.join("/repo", f), INC), []).append(d["id"])
+        for x in a.add_file.split(","):
+            if x:
+                fmap.setdefault(x, [])
+                fmap[x] = sorted(set(fmap[x]) | set(ids))
+
         def props_of(rel):
             out = list(fmap.get(rel, []))
             for k, v in fmap.items():
